@@ -345,51 +345,46 @@ func (l *Lexer) readBlockString(tok *token.Token) {
 	tok.SetStart(l.input.InputPosition, l.input.TextPosition)
 	tok.TextPosition.CharStart -= 3
 
-	escaped := false
-	quoteCount := 0
+	// The literal is the content without the whitespace before its first and after its last
+	// non-whitespace character. Quotes and backslashes are content: the only escape sequence of a
+	// block string is \""" and the string ends at the first """ that is not part of it.
 	whitespaceCount := 0
 	reachedFirstNonWhitespace := false
 	leadingWhitespaceToken := 0
 
+	content := func() {
+		if !reachedFirstNonWhitespace {
+			reachedFirstNonWhitespace = true
+			leadingWhitespaceToken = whitespaceCount
+		}
+		whitespaceCount = 0
+	}
+
 	for {
+		if l.peekEquals(false, runes.BACKSLASH, runes.QUOTE, runes.QUOTE, runes.QUOTE) {
+			l.swallowAmount(4)
+			content()
+			continue
+		}
+		if l.peekEquals(false, runes.QUOTE, runes.QUOTE, runes.QUOTE) {
+			l.swallowAmount(3)
+			tok.SetEnd(l.input.InputPosition-3, l.input.TextPosition)
+			tok.Literal.Start += uint32(leadingWhitespaceToken)
+			tok.Literal.End -= uint32(whitespaceCount)
+			return
+		}
+
 		next := l.readRune()
 		switch next {
 		case runes.SPACE, runes.TAB, runes.CARRIAGERETURN, runes.LINETERMINATOR:
-			escaped = false
-			quoteCount = 0
 			whitespaceCount++
 		case runes.EOF:
 			tok.SetEnd(l.input.InputPosition, l.input.TextPosition)
 			tok.Literal.Start += uint32(leadingWhitespaceToken)
 			tok.Literal.End -= uint32(whitespaceCount)
 			return
-		case runes.QUOTE:
-			if escaped {
-				escaped = !escaped
-				continue
-			}
-
-			quoteCount++
-
-			if quoteCount == 3 {
-				tok.SetEnd(l.input.InputPosition-3, l.input.TextPosition)
-				tok.Literal.Start += uint32(leadingWhitespaceToken)
-				tok.Literal.End -= uint32(whitespaceCount)
-				return
-			}
-
-		case runes.BACKSLASH:
-			escaped = !escaped
-			quoteCount = 0
-			whitespaceCount = 0
 		default:
-			if !reachedFirstNonWhitespace {
-				reachedFirstNonWhitespace = true
-				leadingWhitespaceToken = whitespaceCount
-			}
-			escaped = false
-			quoteCount = 0
-			whitespaceCount = 0
+			content()
 		}
 	}
 }
